@@ -86,3 +86,17 @@ pub fn fdsolve2_py(
 ) -> PyResult<Vec<Dual2>> {
     unsafe { Ok(fdsolve_py(a.as_array(), b, allow_lsq)) }
 }
+
+/// Verification hooks (compiled only with `--cfg rateslib_verif`): the Python-facing solver entry points.
+#[cfg(rateslib_verif)]
+pub mod verif_hooks {
+    use super::*;
+    /// `_dsolve1(a, b, allow_lsq)`: `a` is the row-major flattening of the matrix, as `dual_solve` passes it.
+    pub fn dsolve1(a: Vec<Dual>, b: Vec<Dual>, allow_lsq: bool) -> Result<Vec<Dual>, String> {
+        Python::with_gil(|py| dsolve1_py(py, a, b, allow_lsq).map_err(|e| e.to_string()))
+    }
+    /// `_dsolve2(a, b, allow_lsq)`
+    pub fn dsolve2(a: Vec<Dual2>, b: Vec<Dual2>, allow_lsq: bool) -> Result<Vec<Dual2>, String> {
+        Python::with_gil(|py| dsolve2_py(py, a, b, allow_lsq).map_err(|e| e.to_string()))
+    }
+}
